@@ -1,37 +1,53 @@
 #!/usr/bin/env python3
 """matrix.py <seed dir name e.g. C05_b> ... : which trace conjuncts catch a seeded change?
-For each named change under /verif/seeded: apply the patch to /repo, rebuild the harness, record ONE common
-set of traces (all drivers + stored witnesses), revert the patch, then validate the same traces once per
+For each named change under /verif/seeded: apply the patch to a SCRATCH worktree (never /repo), rebuild a scratch copy of the harness, record ONE common
+set of traces (all drivers + stored witnesses), then validate the same traces once per
 property conjunct (PROP=C01..C15,C19).  Prints / stores the row of the change in the property x change matrix.
 (The probe-based checks C11, C16, C17, C18, C20 have their own inputs; they are run with tools/seedtrial.py.)"""
 import concurrent.futures as cf, json, os, subprocess, sys, glob
 sys.path.insert(0, "/verif/lib")
 import vcheck
 PROPS = ["C01", "C02", "C03", "C04", "C05", "C06", "C07", "C08", "C09", "C10", "C12", "C13", "C14", "C15", "C19"]
-SHARDS = [("random", 5000), ("contact", 5000), ("contact", 5000), ("diagrams", 4000), ("setup", 3000), ("shuffle", 4000),
-          ("confined", 6000), ("confined", 6000), ("confined", 6000)]
+SHARDS = [("random", 4000), ("contact", 4000), ("diagrams", 3000), ("setup", 2500), ("confined", 5000), ("confined", 5000),
+          ("focus", 8000), ("focus", 8000), ("results", 100000)]
 
 def sh(cmd, **kw):
     return subprocess.run(cmd, shell=isinstance(cmd, str), stdout=subprocess.PIPE, stderr=subprocess.STDOUT, **kw)
 
+SCR = "/tmp/mx"          # scratch: a worktree of /repo and a copy of the harness that depends on it
+
+
+def scratch_setup():
+    os.makedirs(SCR, exist_ok=True)
+    if not os.path.isdir(os.path.join(SCR, "repo")):
+        sh(["git", "-C", "/repo", "worktree", "add", "-q", os.path.join(SCR, "repo"), "HEAD"])
+    h = os.path.join(SCR, "harness")
+    sh("rm -rf %s/src %s/Cargo.toml %s/.cargo" % (h, h, h))
+    os.makedirs(h, exist_ok=True)
+    sh("cp -r /verif/harness/src /verif/harness/Cargo.toml /verif/harness/Cargo.lock /verif/harness/.cargo %s/" % h)
+    t = open(os.path.join(h, "Cargo.toml")).read().replace('path = "/repo"', 'path = "%s/repo"' % SCR)
+    open(os.path.join(h, "Cargo.toml"), "w").write(t)
+
+
 def row(name):
+    """The patch is applied to a SCRATCH worktree (never to /repo), the harness copy is rebuilt against it."""
     d = os.path.join("/verif/seeded", name)
-    if sh("git -C /repo status --porcelain").stdout.strip():
-        print("refusing: /repo not clean"); sys.exit(2)
-    if sh(["git", "-C", "/repo", "apply", os.path.join(d, "patch.diff")]).returncode != 0:
+    repo = os.path.join(SCR, "repo")
+    sh("git checkout -q -- . && git clean -fdq -e target", cwd=repo)
+    if sh(["git", "apply", os.path.join(d, "patch.diff")], cwd=repo).returncode != 0:
         print("patch does not apply", name); return None
-    work = "/verif/work/matrix_" + name
+    work = "/tmp/mx/work_" + name
     os.makedirs(work, exist_ok=True)
     traces = []
     try:
-        b = sh("cargo build --offline --release", cwd="/verif/harness")
+        b = sh("cargo build --offline --release", cwd=os.path.join(SCR, "harness"))
         if b.returncode != 0:
             print("harness does not build with", name); return {"build": "failed"}
-        bind = "/verif/harness/target/release"
+        bind = os.path.join(SCR, "harness", "target", "release")
         procs = []
         for k, (drv, n) in enumerate(SHARDS):
             out = os.path.join(work, "t%02d_%s.ndjson" % (k, drv))
-            procs.append(subprocess.Popen([os.path.join(bind, "record"), drv, str(700 + k), str(n), out], env=dict(os.environ, VERIF_REPO="/repo")))
+            procs.append(subprocess.Popen([os.path.join(bind, "record"), drv, str(700 + k), str(n), out], env=dict(os.environ, VERIF_REPO=repo)))
             traces.append(out)
         for p in procs: p.wait()
         for f in sorted(glob.glob("/verif/scenarios/*.path.txt")):
@@ -39,7 +55,7 @@ def row(name):
             sh([os.path.join(bind, "replay"), f, f[:-9] + ".root.ndjson", out, "1"])
             traces.append(out)
     finally:
-        sh("git -C /repo checkout -- .")
+        sh("git checkout -q -- .", cwd=repo)
     res = {}
     jobs = [(t, p) for p in PROPS for t in traces]
     def one(j):
@@ -54,14 +70,18 @@ def row(name):
             if ok is False:
                 res.setdefault(p, why[0][2] if why else "unmatched event (panic)")
     sh("rm -rf " + work)
-    return res
+    return res or {"none": "no trace conjunct tripped on these traces"}
 
 if __name__ == "__main__":
     out = "/verif/seeded/matrix.json"
     m = json.load(open(out)) if os.path.exists(out) else {}
+    scratch_setup()
     for name in sys.argv[1:]:
+        if name in m and m[name]:
+            continue
         r = row(name)
         m[name] = r
         print(name, "->", sorted(r.keys()) if r else r, flush=True)
         json.dump(m, open(out, "w"), indent=1, sort_keys=True)
-    sh("cd /verif/harness && cargo build --offline --release")
+    sh(["git", "-C", "/repo", "worktree", "remove", "--force", os.path.join(SCR, "repo")])
+    sh("rm -rf " + SCR)
